@@ -107,18 +107,6 @@ Definition op_okb3 (w : world) (o : op) : bool :=
     match c with CAutocharge | CCharge => NAtidb w tid | _ => true end
   | ONewSolsys x => negb (is_some (get_ss w x))
   | OCharge m _ => match get_item w m with Some mit => directb mit | None => true end
-  | OSource x new =>
-    match get_ss w x with
-    | Some y =>
-      let m := fst (src_mid (w, []) x y new) in
-      (if onat_eqb (ss_source y) new then true else LSb m) &&
-      match new with
-      | Some _ => let l := flat_map (fit_list m) (ss_fit_list m x) in
-                  nodupb Nat.eqb l && forallb (dir_unloadedb m) l
-      | None => true
-      end
-    | None => true
-    end
   | _ => true
   end.
 
